@@ -21,7 +21,8 @@ Print Assumptions binding_powers_as_documented.
 (** printing any tree of the class [ok] with only the necessary parentheses and parsing it back
     (Pratt loop, argument lists, lowering with its re-association of calls) yields the same tree,
     for every sufficiently large fuel.  [ok]: a callee is an atom, a call or a field access, and the
-    operand of a prefix operator has no call on its postfix chain. *)
+    operand of a prefix operator either has no call on its postfix chain or is (prefix operators over)
+    one call of a call-free callee, as in -f(x) and !a.done(). *)
 Theorem print_then_parse_is_identity :
   forall e, ok e = true -> exists f0, forall f, f0 <= f -> parse_fuel f (print e) = Some e.
 Proof. exact print_parse_roundtrip. Qed.
@@ -30,7 +31,7 @@ Print Assumptions print_then_parse_is_identity.
 (** non-vacuity: a tree with every construct is in the class, and the model's concrete fuel suffices for it *)
 Definition ex_tree : expr :=
   Bin BOr (Bin BMul (Bin BAdd (Atom 0) (Un UNeg (Field (Atom 1) 7))) (Call (Field (Call (Atom 2) [Atom 3; Bin BLt (Atom 4) (Atom 5)]) 8) []))
-          (Un UNot (Un UNeg (Bin BEq (Atom 6) (Atom 0)))).
+          (Bin BAnd (Un UNot (Un UNeg (Bin BEq (Atom 6) (Atom 0)))) (Un UNot (Un UNeg (Call (Field (Atom 1) 7) [Atom 2; Un UNeg (Call (Atom 3) [])])))).
 Example ex_tree_ok : ok ex_tree = true /\ parse_expr (print ex_tree) = Some ex_tree.
 Proof. split; reflexivity. Qed.
 
